@@ -43,6 +43,7 @@ func main() {
 	dump := flag.Bool("dump", false, "print every obligation")
 	list := flag.Bool("list", false, "list rules")
 	selftestVariant := flag.String("selftest-variant", "", "internal: run one seeded variant (json) and print the verdict")
+	selftestOne := flag.String("selftest-one", "", "debugging: run the named self-test variant of -property and print the child's result")
 	flag.StringVar(&repoRoot, "repo", envOr("SG_REPO", "/repo"), "repository root")
 	flag.StringVar(&verifRoot, "verif", envOr("SG_VERIF", "/verif"), "verif root")
 	noEvidence := flag.Bool("no-evidence", false, "do not write evidence (debugging)")
@@ -53,6 +54,16 @@ func main() {
 			fmt.Printf("%-34s %-22s floor=%d\n", r.ID, strings.Join(r.Props, ","), r.Floor)
 		}
 		return
+	}
+	if *selftestOne != "" {
+		for _, v := range variantsFor(*prop) {
+			if v.ID == *selftestOne {
+				spec, _ := json.Marshal(childSpec{Prop: *prop, Variant: v, Repo: repoRoot, Verif: verifRoot})
+				os.Exit(runVariantChild(string(spec)))
+			}
+		}
+		fmt.Println("no such variant for this property")
+		os.Exit(2)
 	}
 	if *selftestVariant != "" {
 		os.Exit(runVariantChild(*selftestVariant))
